@@ -1316,3 +1316,72 @@ func runLiveNoSpawn(c *Ctx, r *RuleRun) {
 			"a goroutine is started outside Open/watermark.New and "+heavy+": Close does not wait for it, so background work (e.g. a compaction) can still be rewriting the directory after Close returned and while it is reopened")
 	}
 }
+
+func init() {
+	register(&Rule{ID: "CODEC.S2", Engine: "E-SIB", Min: 1,
+		Desc: "Compress and Decompress agree on the block size: a reader limited with ReaderMaxBlockSize needs a writer limited with WriterBlockSize; otherwise what was encoded cannot be decoded once a block exceeds the limit",
+		Run:  runCodecS2})
+	register(&Rule{ID: "CODEC.BLOCKS", Engine: "E-ESC", Min: 1,
+		Desc: "table.Build starts every data block with a fresh entry slice: the accumulator is reset by value, never re-sliced to length 0 (the blocks already collected would share, and be overwritten through, its backing array)",
+		Run:  runCodecBlocks})
+}
+
+func runCodecS2(c *Ctx, r *RuleRun) {
+	p := c.P
+	cf, df := p.Fn("utils", "", "Compress"), p.Fn("utils", "", "Decompress")
+	if cf == nil || df == nil {
+		r.Undecided("-", "utils.Compress/Decompress", "", "anchors not found")
+		return
+	}
+	opts := func(f *ssa.Function) map[string]bool {
+		out := map[string]bool{}
+		for g := range p.Reach(f) {
+			eachInstr(g, func(ins ssa.Instruction) {
+				if call, ok := ins.(*ssa.Call); ok {
+					if obj := p.ExtCallee(call); obj != nil && obj.Pkg() != nil && strings.HasSuffix(obj.Pkg().Path(), "compress/s2") {
+						out[obj.Name()] = true
+					}
+				}
+			})
+		}
+		return out
+	}
+	w, rd := opts(cf), opts(df)
+	ok := w["NewWriter"] && rd["NewReader"]
+	detail := "writer and reader both use the default block limits"
+	if rd["ReaderMaxBlockSize"] && !w["WriterBlockSize"] {
+		ok = false
+	}
+	if rd["ReaderMaxBlockSize"] && w["WriterBlockSize"] {
+		detail = "writer and reader both limit the block size"
+	}
+	r.Check(ok, "utils", "Compress/Decompress block size", p.Pos(df.Pos()), detail,
+		"Decompress limits the s2 block size but Compress does not: a block or index above the limit is written without error and can never be read back")
+}
+
+func runCodecBlocks(c *Ctx, r *RuleRun) {
+	p := c.P
+	build := p.Fn("table", "", "Build")
+	entries := p.Field("table", "Data", "Entries")
+	if build == nil || entries == nil {
+		r.Undecided("-", "table.Build", "", "anchor not found")
+		return
+	}
+	bad := ""
+	var pos token.Pos = build.Pos()
+	eachInstr(build, func(ins ssa.Instruction) {
+		sl, ok := ins.(*ssa.Slice)
+		if !ok {
+			return
+		}
+		if fv, _ := loadedField(sl.X); fv != entries {
+			return
+		}
+		if k, ok := constInt(sl.High); ok && k == 0 {
+			bad = "re-slices Data.Entries to length 0"
+			pos = instrPos(sl)
+		}
+	})
+	r.Check(bad == "", p.FnName(build), "fresh slice per data block", p.Pos(pos), "the block accumulator is reset by value",
+		"table.Build "+bad+" after collecting a block: the following block overwrites the entries of the blocks already collected (they share the backing array), so multi-block tables are written with wrong contents")
+}
